@@ -495,11 +495,20 @@ pub fn run(thorough: bool) -> Report {
             for l in 2..=18usize {
                 let mut strs: Vec<String> = (0..k).map(|j| format!("1.3.6.1.2.1.2.2.1.10.{}", j + 1)).collect();
                 strs.push(oid_of_len(l).iter().map(|x| x.to_string()).collect::<Vec<_>>().join("."));
-                for (boots, time) in [(1i64, 2i64), (0x7fffffff, 0x7fffffff), (0, 0)] {
+                for (ci, (boots, time)) in [(1i64, 2i64), (0x7fffffff, 0x7fffffff), (0, 0)].into_iter().enumerate() {
+                    // the three request PDU types in turn (the privacy layer serialises the PDU into a buffer that already
+                    // holds its padding, so every PDU encoder runs at a non-zero buffer offset here)
+                    let ptype = (k + l + ci) % 3;
                     let r = guarded(|| -> Result<(), String> {
                         let vars: Vec<SnmpOid> = strs.iter().map(|s| SnmpOid::try_from(s.as_str()).map_err(|_| "oid refused".to_string())).collect::<Result<_, _>>()?;
                         let want: Vec<Vec<u8>> = vars.iter().map(|o| Vec::<u8>::from(o)).collect();
-                        let sp = ScopedPdu { engine_id: engine, pdu: SnmpPdu::GetRequest(SnmpGet { request_id: 0x1234 + k as i64, vars }) };
+                        let rid = 0x1234 + k as i64;
+                        let pdu = match ptype {
+                            0 => SnmpPdu::GetRequest(SnmpGet { request_id: rid, vars }),
+                            1 => SnmpPdu::GetNextRequest(SnmpGet { request_id: rid, vars }),
+                            _ => SnmpPdu::GetBulkRequest(make_getbulk(rid, 0, 10 + l as i64, vars)),
+                        };
+                        let sp = ScopedPdu { engine_id: engine, pdu };
                         let (ct, salt) = match enc.encrypt(&sp, boots as u32, boots as u32 ^ time as u32) {
                             Ok((c, s)) => (c.to_vec(), s.to_vec()),
                             Err(_) => return Err("encrypt refused a request that fits".into()),
@@ -509,11 +518,17 @@ pub fn run(thorough: bool) -> Report {
                         if back.engine_id != engine {
                             return Err("context engine id changed".into());
                         }
-                        match back.pdu {
-                            SnmpPdu::GetRequest(g) => {
+                        match (ptype, back.pdu) {
+                            (0, SnmpPdu::GetRequest(g)) | (1, SnmpPdu::GetNextRequest(g)) => {
                                 let got: Vec<Vec<u8>> = g.vars.iter().map(|o| Vec::<u8>::from(o)).collect();
-                                if g.request_id != 0x1234 + k as i64 || got != want {
+                                if g.request_id != rid || got != want {
                                     return Err("request-id / OIDs changed through encrypt+decrypt".into());
+                                }
+                            }
+                            (2, SnmpPdu::GetBulkRequest(g)) => {
+                                let (r2, nr, mr, oids) = getbulk_repr(&g);
+                                if r2 != rid || nr != 0 || mr != 10 + l as i64 || oids != want {
+                                    return Err("GetBulk fields changed through encrypt+decrypt".into());
                                 }
                             }
                             _ => return Err("PDU type changed".into()),
